@@ -3,7 +3,7 @@
    committed; they are re-checked against the regenerated file on every run of C10 / C11 / C13. *)
 From Coq Require Import ZArith QArith List Bool Lia String.
 Import ListNotations.
-From SCK Require Import Voting ScoreProof GenLib.
+From SCK Require Import Voting VoteExt ScoreProof GenLib GenUtil.
 From SCKGen Require Import ScoringGen.
 Local Open Scope Z_scope.
 
@@ -73,3 +73,9 @@ Print Assumptions gen_scf_is_model.
 Theorem gen_fixer_is_model : gen_fixer true = 0 /\ gen_fixer false = 1.
 Proof. split; reflexivity. Qed.
 Print Assumptions gen_fixer_is_model.
+
+(* SocialWelfare.score: column share of the non-NaN utilities *)
+Theorem gen_SocialWelfare_is_model : forall V m j, GenUtil.qrect V m -> (j < m)%nat ->
+  (nth j (gen_score_SocialWelfare V) 0 == nth j (VoteExt.util_score V) 0)%Q.
+Proof. exact GenUtil.gen_util_is_model. Qed.
+Print Assumptions gen_SocialWelfare_is_model.
